@@ -237,8 +237,54 @@ def rule_prototype_values(ctx, rep, rid: str) -> None:
                 rep.ok(rid, key)
             elif isinstance(a, ast.Constant) and a.value is None:
                 rep.ok(rid, key)
+            elif isinstance(a, ast.Name) and a.id in cs.func.params() and not _defs_of(cs.func, a.id):
+                # a parameter: every call of the function passes None or a proven object
+                from ..util import bind_args
+
+                callers = [c2 for c2 in ctx.cg.sites if c2.kind == "resolved" and any(t is cs.func for t in c2.targets)]
+                unproven = []
+                for c2 in callers:
+                    arg = bind_args(c2.call, cs.func).get(a.id)
+                    if arg is None or _proven_object(ctx, arg, c2.func):
+                        continue
+                    unproven.append(f"{c2.func.qual}:{c2.line} passes {short(arg, 30)}")
+                d = cs.func.node.args.defaults
+                if callers and not unproven:
+                    rep.ok(rid, key, {"because": f"parameter; all {len(callers)} call sites pass None or a proven object"})
+                else:
+                    rep.bad(rid, key, f"JSObject constructed with the parameter {a.id} as prototype, and {unproven[0] if unproven else 'no call site was found'}", f"{cs.func.module.rel}:{cs.line}")
             else:
                 rep.bad(rid, key, f"JSObject constructed with prototype {short(a, 30)} of unproven kind", f"{cs.func.module.rel}:{cs.line}")
+
+
+def _proven_object(ctx, e: ast.AST, f: Func) -> bool:
+    """e is None or certainly a JSObject: constructed in f, or the `prototype` property of a constructor that a
+    factory has just built (the factory installs a freshly constructed object there) in code no script can
+    have touched yet."""
+    if isinstance(e, ast.Constant) and e.value is None:
+        return True
+    if isinstance(e, ast.Name):
+        ds = _defs_of(f, e.id)
+        return bool(ds) and all(isinstance(d, ast.Call) and call_name(d) in ("JSObject", "JSArray", "JSCallableObject") for d in ds)
+    if isinstance(e, ast.Call) and isinstance(e.func, ast.Attribute) and e.func.attr == "get" and e.args and const_str(e.args[0]) == "prototype" and isinstance(e.func.value, ast.Name):
+        if id(f) in ctx.facts.script_reachable():
+            return False  # a script may have replaced the property by now
+        ds = _defs_of(f, e.func.value.id)
+        if len(ds) != 1 or not isinstance(ds[0], ast.Call):
+            return False
+        cs = ctx.cg.site_of_call.get(id(ds[0]))
+        if cs is None or cs.kind != "resolved" or not cs.targets:
+            return False
+        for g in cs.targets:
+            rets = [n.value for n in g.own_nodes() if isinstance(n, ast.Return)]
+            if not rets or not all(isinstance(r, ast.Name) for r in rets):
+                return False
+            for r in rets:
+                installs = [n for n in g.own_nodes() if isinstance(n, ast.Call) and isinstance(n.func, ast.Attribute) and n.func.attr == "set" and norm(n.func.value) == r.id and len(n.args) == 2 and const_str(n.args[0]) == "prototype"]
+                if not installs or not all(isinstance(i.args[1], ast.Name) and _proven_object(ctx, i.args[1], g) and not (isinstance(i.args[1], ast.Constant)) for i in installs):
+                    return False
+        return True
+    return False
 
 
 def _defs_of(f: Func, name: str) -> List[ast.AST]:
